@@ -60,11 +60,23 @@ Print Assumptions c14_post_spec_reflect.
 
 (* ---- HTTP-Redirect *)
 
-(* outside finding class 2: the URL names the destination, keeps its parameters and adds exactly
+(* pack.add_query: for every destination and every urlencode'd parameter string, the parameters
+   land in the query component behind the destination's own parameters; scheme/host/path and
+   fragment are untouched.  (No restriction on '#', on an existing query or on a trailing '?' / '&'
+   any more: classes 2, 3 and 5 are repaired.) *)
+Theorem c14_add_query : forall loc s,
+  all_chars qs_alphabet s = true ->
+  parse_qsl (url_query (add_query loc s)) = (parse_qsl (url_query loc) ++ parse_qsl s)%list
+  /\ url_base (add_query loc s) = url_base loc
+  /\ url_fragment (add_query loc s) = url_fragment loc.
+Proof. exact add_query_delivers. Qed.
+Print Assumptions c14_add_query.
+
+(* the URL names the destination, keeps its parameters and its fragment and adds exactly
    (typ, payload) and RelayState; unravel of the payload is the message *)
 Theorem c14_redirect : forall deflate (inflate soap_parse : string -> option string),
   (forall m, inflate (deflate m) = Some m) ->
-  forall x, loc_ok (r_loc x) = true ->
+  forall x,
   redir_spec x (http_redirect_message deflate (r_msg x) (r_loc x) (r_rs x) (r_typ x))
                (redirect_received deflate inflate soap_parse (r_msg x)).
 Proof. exact redir_holds. Qed.
@@ -76,44 +88,66 @@ Theorem c14_redirect_payload_nonblank : forall deflate (inflate : string -> opti
 Proof. exact redirect_payload_nonblank. Qed.
 Print Assumptions c14_redirect_payload_nonblank.
 
-(* finding class 2: destination with a fragment / ending in a bare '?' *)
-Theorem c14_redirect_fragment_refuted : forall deflate (inflate soap_parse : string -> option string),
-  exists x, ~ redir_spec x (http_redirect_message deflate (r_msg x) (r_loc x) (r_rs x) (r_typ x))
+(* finding class 5 (repaired by d9426b2c): a destination whose query component ends in '?' *)
+Theorem c14_redirect_qm_tail_v1_refuted : forall deflate (inflate soap_parse : string -> option string),
+  exists x, ~ redir_spec x (http_redirect_message_v1 deflate (r_msg x) (r_loc x) (r_rs x) (r_typ x))
                            (redirect_received deflate inflate soap_parse (r_msg x)).
-Proof. exact redir_fragment_refuted. Qed.
-Print Assumptions c14_redirect_fragment_refuted.
+Proof. exact redir_qm_tail_v1_refuted. Qed.
+Print Assumptions c14_redirect_qm_tail_v1_refuted.
 
-Theorem c14_redirect_bare_qm_refuted : forall deflate (inflate soap_parse : string -> option string),
-  exists x, ~ redir_spec x (http_redirect_message deflate (r_msg x) (r_loc x) (r_rs x) (r_typ x))
+(* finding class 2 (repaired by fc5e66e9): the property was false of the code as it was — destination
+   with a fragment / ending in a bare '?' *)
+Theorem c14_redirect_fragment_v0_refuted : forall deflate (inflate soap_parse : string -> option string),
+  exists x, ~ redir_spec x (http_redirect_message_v0 deflate (r_msg x) (r_loc x) (r_rs x) (r_typ x))
                            (redirect_received deflate inflate soap_parse (r_msg x)).
-Proof. exact redir_bare_qm_refuted. Qed.
-Print Assumptions c14_redirect_bare_qm_refuted.
+Proof. exact redir_fragment_v0_refuted. Qed.
+Print Assumptions c14_redirect_fragment_v0_refuted.
+
+Theorem c14_redirect_bare_qm_v0_refuted : forall deflate (inflate soap_parse : string -> option string),
+  exists x, ~ redir_spec x (http_redirect_message_v0 deflate (r_msg x) (r_loc x) (r_rs x) (r_typ x))
+                           (redirect_received deflate inflate soap_parse (r_msg x)).
+Proof. exact redir_bare_qm_v0_refuted. Qed.
+Print Assumptions c14_redirect_bare_qm_v0_refuted.
 
 Theorem c14_redirect_spec_reflect : forall x url received, redir_spec_b x url received = true <-> redir_spec x url received.
 Proof. exact redir_spec_b_iff. Qed.
 Print Assumptions c14_redirect_spec_reflect.
 
-(* ---- artifact URL (use_http_artifact) *)
+(* ---- artifact URL (use_http_artifact) and URI binding URL (use_http_uri) *)
 
 Theorem c14_artifact_url : forall x,
-  dest_plain (u_dest x) = true -> arturl_spec x (use_http_artifact (u_art x) (u_dest x) (u_rs x)).
+  arturl_spec x (use_http_artifact (u_art x) (u_dest x) (u_rs x)).
 Proof. exact arturl_holds. Qed.
 Print Assumptions c14_artifact_url.
 
-(* finding class 3 *)
-Theorem c14_artifact_url_refuted : exists x, ~ arturl_spec x (use_http_artifact (u_art x) (u_dest x) (u_rs x)).
-Proof. exact arturl_refuted. Qed.
-Print Assumptions c14_artifact_url_refuted.
+Theorem c14_uri_url : forall x,
+  uriurl_spec x (use_http_uri (i_id x) (i_dest x) (i_rs x)).
+Proof. exact uriurl_holds. Qed.
+Print Assumptions c14_uri_url.
+
+(* finding class 5 (repaired by d9426b2c) *)
+Theorem c14_artifact_url_qm_tail_v1_refuted : exists x, ~ arturl_spec x (use_http_artifact_v1 (u_art x) (u_dest x) (u_rs x)).
+Proof. exact arturl_qm_tail_v1_refuted. Qed.
+Print Assumptions c14_artifact_url_qm_tail_v1_refuted.
+
+(* finding class 3 (repaired by fc5e66e9) *)
+Theorem c14_artifact_url_v0_refuted : exists x, ~ arturl_spec x (use_http_artifact_v0 (u_art x) (u_dest x) (u_rs x)).
+Proof. exact arturl_v0_refuted. Qed.
+Print Assumptions c14_artifact_url_v0_refuted.
 
 Theorem c14_artifact_url_spec_reflect : forall x url, arturl_spec_b x url = true <-> arturl_spec x url.
 Proof. exact arturl_spec_b_iff. Qed.
 Print Assumptions c14_artifact_url_spec_reflect.
 
+Theorem c14_uri_url_spec_reflect : forall x url, uriurl_spec_b x url = true <-> uriurl_spec x url.
+Proof. exact uriurl_spec_b_iff. Qed.
+Print Assumptions c14_uri_url_spec_reflect.
+
 (* ---- SOAP *)
 
-(* outside finding class 4: the envelope carries the body verbatim; with or without an XML
-   declaration, on one line or several *)
-Theorem c14_soap : forall t, body_ok t = true -> soap_spec t (make_soap t).
+(* the envelope carries the body verbatim; with or without an XML declaration, on one line or
+   several, whatever text the body contains *)
+Theorem c14_soap : forall t, soap_spec t (make_soap t).
 Proof. exact soap_holds. Qed.
 Print Assumptions c14_soap.
 
@@ -121,10 +155,10 @@ Theorem c14_soap_shapes : forall t b, msg_body t b -> body_of t = Some b.
 Proof. exact msg_body_body_of. Qed.
 Print Assumptions c14_soap_shapes.
 
-(* finding class 4 *)
-Theorem c14_soap_refuted : exists t, ~ soap_spec t (make_soap t).
-Proof. exact soap_refuted. Qed.
-Print Assumptions c14_soap_refuted.
+(* finding class 4 (repaired by 9f16767d): declaration text inside the body was deleted *)
+Theorem c14_soap_v0_refuted : exists t, ~ soap_spec t (make_soap_v0 t).
+Proof. exact soap_v0_refuted. Qed.
+Print Assumptions c14_soap_v0_refuted.
 
 Theorem c14_soap_spec_reflect : forall t env, soap_spec_b t env = true <-> soap_spec t env.
 Proof. exact soap_spec_b_iff. Qed.
@@ -132,7 +166,7 @@ Print Assumptions c14_soap_spec_reflect.
 
 (* ---- artifacts *)
 
-(* outside finding class 1 (index < 256): the artifact resolves to its issuer and its index *)
+(* outside finding class 1 (open; index < 256): the artifact resolves to its issuer and its index *)
 Theorem c14_artifact_roundtrip : forall (sha1 : string -> string),
   (forall e, String.length (sha1 e) = 20) ->
   forall x, idx_ok (a_idx x) = true -> a_sid x = sha1 (a_eid x) ->
